@@ -103,6 +103,12 @@ class Decoder:
         self.bytesIo: io.BytesIO = io.BytesIO()
 
     def writeBmpHeader(self, size:int, offset:int):
+        # The file header is the first thing written for every image: start
+        # from an empty buffer, so that nothing left behind by an earlier
+        # decode that raised part-way ends up in front of this image.
+        self.bytesIo.close()
+        self.bytesIo = io.BytesIO()
+
         # Write Windows bitmap file header
         self.bytesIo.write('BM'.encode('ascii'))
         
